@@ -122,8 +122,10 @@ namespace rkcommon {
       if (*s == '"') {
         consume(s, '"');
         char *begin = s;
-        while (*s != '"') {
-          if (*s == '\\')
+        // stop at the terminating 0 of an unterminated string (consume()
+        // below then throws) instead of scanning past the end of the input
+        while (*s != '"' && *s != 0) {
+          if (*s == '\\' && s[1] != 0)
             ++s;
           ++s;
         }
@@ -133,8 +135,8 @@ namespace rkcommon {
       } else {
         consume(s, '\'');
         char *begin = s;
-        while (*s != '\'') {
-          if (*s == '\\')
+        while (*s != '\'' && *s != 0) {
+          if (*s == '\\' && s[1] != 0)
             ++s;
           ++s;
         }
